@@ -8,6 +8,7 @@ import (
 	"syscall"
 
 	"github.com/tencent/goom/internal/logger"
+	"github.com/tencent/goom/internal/simhook"
 )
 
 // accessMemGuide access mem error solution guide
@@ -17,6 +18,8 @@ const accessMemGuide = "https://github.com/tencent/goom"
 // aww yeah
 // It copies a slice to a raw memory location, disabling all memory protection before doing so.
 func WriteTo(addr uintptr, data []byte) error {
+	simhook.Acquire(simhook.LockMem)
+	defer simhook.Release(simhook.LockMem)
 	memoryAccessLock.Lock()
 	defer memoryAccessLock.Unlock()
 
@@ -28,10 +31,13 @@ func WriteTo(addr uintptr, data []byte) error {
 		}
 		errorDetail(err)
 	}
+	simhook.Yield(simhook.SiteMemWriteRWX, addr)
 	copy(f, data[:])
+	simhook.Yield(simhook.SiteMemWriteCopied, addr)
 	if err := mProtectCrossPage(addr, len(data), syscall.PROT_READ|syscall.PROT_EXEC); err != nil {
 		errorDetail(err)
 	}
+	simhook.Yield(simhook.SiteMemWriteDone, addr)
 	return nil
 }
 
